@@ -1,7 +1,8 @@
 from _common import COMMON_NOTE
 
 META = {'title': 'VTX playback is frame-accurate and independent of play() chunking',
- 'lean_modules': ['ZxVerif.Props.C20'],
+ 'lean_modules': ['ZxVerif.Props.C20', 'ZxVerif.Props.C20X'],
+ 'extract': ['VtxLayout'],
  'modelled_code': ['vtx/src/player.rs (Player::new, update_ay, play: mono and stereo loops)',
                    'vtx/src/lib.rs (Vtx::frames_count, Vtx::frame_registers, the transposition loop of Vtx::load)'],
  'assumptions': ['the Lean model ZxVerif/Model/Vtx.lean is a hand transcription; its agreement with the Rust code is '
@@ -25,7 +26,12 @@ META = {'title': 'VTX playback is frame-accurate and independent of play() chunk
                'spec (frame k written before sample k*spf, R13=0xFF skipped, end after frames*spf); the loader '
                'transposition is the frame-major listing for every frame count and has a left inverse. The model is tied '
                'to the Rust code on every run by a correspondence check (recording backend: every play call compared; '
-               'real AymPrecise: bit-exact stream equality between chunkings; Vtx::load on generated files).',
+               'real AymPrecise: bit-exact stream equality between chunkings; Vtx::load on generated files); in '
+               'addition the header reads, the un-transposition index expression, samples_per_frame, the R13 rule, the '
+               'write order and the cursor arithmetic of both loops of play are translated from lib.rs / player.rs on '
+               'every run (tools/extract.py, table VtxLayout) and an interpreter over the translated pieces is proved '
+               'equal to the model for every state (Props/C20X), so the schedule and transposition theorems are '
+               'restated about the source text.',
  'level_note': COMMON_NOTE + ' No bv_decide in C20. The real AymPrecise backend enters only through the observed '
                'stream-equality check (its determinism is what the abstract-backend theorem assumes); f64 sample '
                'conversion (PlayerSample) is observed through the f64 instance only.'}
